@@ -13,4 +13,4 @@ class Number(internal.SingleValueRawTokenModel[decimal.Decimal]):
     
     @classmethod
     def _format_value(cls, value: decimal.Decimal) -> str:
-        return str(value)
+        return format(value, 'f')
